@@ -8,7 +8,7 @@ without an obligation cannot be said to meet its precondition.
 import re
 
 from ..core import RuleResult
-from ..ir import access_paths, walk, strip
+from ..ir import access_paths, walk, strip, inline
 from .. import anchors
 from .codec import find_buffers
 
@@ -82,6 +82,49 @@ def nonempty_guarded(f, b, pt, recv_expr):
     return False
 
 
+def _borrow_class(f, b, e, to, C, R, r):
+    calls = [x for x in walk(e) if x[0] == 'call']
+    if any('OccupiedEntry' in x[1] and x[1].endswith('::get') for x in calls):
+        cls = 'CACHE-BORROW'
+        ok = any(x[0] == 'field' and x[2] == C['cached_maps'] and x[3] == C['adt'] for x in walk(e))
+        why = 'referent is an entry of the write-once map cache (WRITEONCE rule keeps it alive)' if ok else \
+            'OccupiedEntry::get on something other than the map cache field'
+        r.assumptions.append('dashmap may move a value on resize but the borrows handed out point into Arc<str>/Arc<[String]> heap data; drops are what WRITEONCE excludes')
+        return ok, why, cls
+    cls = 'FROZEN-BORROW'
+    via_self_method = True
+    roots = strip(e, through_calls={'deref', 'index', 'borrow', 'as_ref', 'as_slice'})
+    for x in roots:
+        good = False
+        if x[0] == 'call':
+            cb = f.body(x[4] if len(x) > 4 and x[4] else x[1])
+            if cb is not None and cb.d.get('impl_adt') == R['adt'] and x[2]:
+                rr = [root_ for root_, fs in access_paths(x[2][0]) if root_[0] == 'arg' and root_[1] == 1 and not fs]
+                if rr and 'Vec<&' in cb.d.get('sig', ''):
+                    good = True
+        elif x[0] == 'field' and x[2] == R['replacements'] and x[3] == R['adt']:
+            good = True
+        if not good:
+            via_self_method = False
+    if not roots:
+        via_self_method = False
+    fld = [fl for fl in anchors.fields(f.adts[R['adt']]) if fl['name'] == R['replacements']][0]
+    ok = via_self_method and fld['freeze'] and 'Replacement' in to
+    why = ('referent is an element of the replacement list reached through a &self accessor; the list is Freeze and '
+           'mutation needs &mut (W-MUT)') if ok else 'operand does not provably borrow from self\'s frozen replacement list'
+    return ok, why, cls
+
+
+def _unsafe_fn_kind(f, body):
+    """what obligation a crate-local unsafe fn forwards to its callers"""
+    for m in [body] + f.closures_of(body):
+        for pt, s in m.points():
+            if s['k'] == 'assign' and s['r']['k'] == 'cast' and 'Transmute' in s['r']['ck'] and not s.get('x') and \
+                    strip_lifetimes(s['r'].get('from_ty', '')) == strip_lifetimes(s['r']['ty']) and s['r']['ty'].startswith('&'):
+                return 'lifetime-ext'
+    return 'slice'
+
+
 def rule_unsafe_sites(ctx, config='dev'):
     f = ctx.facts(config)
     r = RuleResult('UNSAFE-SITES', 'every unsafe operation in the crate is classified and its class obligation discharged at that site: '
@@ -110,39 +153,23 @@ def rule_unsafe_sites(ctx, config='dev'):
                 r.violation('%s:transmute' % root.path, site, b.path,
                             'transmute that is not a pure lifetime extension of a shared reference (%s -> %s): unaudited' % (fr, to))
                 continue
-            ok, why, cls = False, '', 'BORROW'
-            calls = [x for x in walk(e) if x[0] == 'call']
-            if any('OccupiedEntry' in x[1] and x[1].endswith('::get') for x in calls):
-                cls = 'CACHE-BORROW'
-                # referent lives in the write-once map cache: entry of self.cached_maps
-                ok = any(x[0] == 'field' and x[2] == C['cached_maps'] and x[3] == C['adt'] for x in walk(e))
-                why = 'referent is an entry of the write-once map cache (WRITEONCE rule keeps it alive)' if ok else \
-                    'OccupiedEntry::get on something other than the map cache field'
-                r.assumptions.append('dashmap may move a value on resize but the borrows handed out point into Arc<str>/Arc<[String]> heap data; drops are what WRITEONCE excludes')
-            else:
-                cls = 'FROZEN-BORROW'
-                # element of a vector returned by a &self method of the same object; referent field is Freeze
-                via_self_method = True
-                roots = strip(e, through_calls={'deref', 'index', 'borrow', 'as_ref', 'as_slice'})
-                for x in roots:
-                    # every root must be the result of a &self accessor returning borrowed elements
-                    good = False
-                    if x[0] == 'call':
-                        cb = f.body(x[1])
-                        if cb is not None and cb.d.get('impl_adt') == R['adt'] and x[2]:
-                            rr = [root_ for root_, fs in access_paths(x[2][0]) if root_[0] == 'arg' and root_[1] == 1 and not fs]
-                            if rr and 'Vec<&' in cb.d.get('sig', ''):
-                                good = True
-                    elif x[0] == 'field' and x[2] == R['replacements'] and x[3] == R['adt']:
-                        good = True
-                    if not good:
-                        via_self_method = False
-                if not roots:
-                    via_self_method = False
-                fld = [fl for fl in anchors.fields(f.adts[R['adt']]) if fl['name'] == R['replacements']][0]
-                ok = via_self_method and fld['freeze'] and 'Replacement' in to
-                why = ('referent is an element of the replacement list reached through a &self accessor; the list is Freeze and '
-                       'mutation needs &mut (W-MUT)') if ok else 'operand does not provably borrow from self\'s frozen replacement list'
+            ok, why, cls = _borrow_class(f, b, e, to, C, R, r)
+            roots_ = strip(e, through_calls={'deref', 'borrow', 'as_ref'})
+            if not ok and in_unsafe_fn and roots_ and all(x[0] == 'arg' and x[3] == root.key for x in roots_):
+                # the unsafe fn only forwards the obligation: every call site must pass a referent that satisfies it
+                sites_ = []
+                for cb in f.body_list:
+                    if cb.promoted is not None:
+                        continue
+                    for cpt, ct in cb.calls():
+                        cc = ct.get('callee')
+                        if cc and (cc.get('resolved') or cc['path']) == root.key:
+                            for x in roots_:
+                                if x[1] - 1 < len(ct['args']):
+                                    sites_.append(_borrow_class(f, cb, cb.expr_of_operand(ct['args'][x[1] - 1]), to, C, R, r))
+                if sites_ and all(x[0] for x in sites_):
+                    ok, cls = True, sites_[0][2]
+                    why = 'unsafe fn forwards the obligation; every call site passes ' + sites_[0][1]
             r.site('%s: lifetime transmute %s [%s] — %s' % (b.path, strip_lifetimes(to), cls, why), site, 'ok' if ok else 'violation')
             if not ok:
                 r.violation('%s:transmute:%s' % (root.path, cls), site, b.path,
@@ -181,6 +208,10 @@ def rule_unsafe_sites(ctx, config='dev'):
         elif c.get('local') or c.get('crate') == f.d['crate']:
             if in_unsafe_fn:
                 r.site('%s: calls unsafe fn %s from an unsafe fn (forwards its own precondition)' % (b.path, c['path']), site, 'ok')
+            elif f.body(c.get('resolved') or c['path']) is not None and \
+                    _unsafe_fn_kind(f, f.body(c.get('resolved') or c['path'])) == 'lifetime-ext':
+                r.site('%s: calls lifetime-extending unsafe fn %s (referent checked at its transmute, per call site)' % (b.path, c['path']),
+                       site, 'ok')
             else:
                 ok, why = _table_bounds(f, b, node)
                 r.site('%s: safe caller of unsafe fn %s — %s' % (b.path, c['path'], why), site, 'ok' if ok else 'violation')
@@ -212,30 +243,39 @@ def rule_unsafe_sites(ctx, config='dev'):
 
 def _table_bounds(f, b, t):
     """range argument {start, end} of an unchecked slice call: each bound must come from `table.get(i)` (table = get_or_init cell
-    filled from char_indices of the same text) or from `len()` of that text"""
+    filled from char_indices of the same text) with the text length as fallback; helper methods / closures are looked through"""
     rng = None
     for a in t['args'][1:]:
-        e = b.expr_of_operand(a)
+        e = inline(f, b.expr_of_operand(a), depth=3)
         for x in walk(e):
             if x[0] == 'agg' and x[2] and x[2].endswith('ops::Range'):
                 rng = x
     if rng is None:
         return False, 'range argument is not a Range literal'
+    init_ok = False
     for o in rng[5]:
         ok = False
         for x in walk(o):
-            if x[0] == 'call' and x[1].rsplit('::', 1)[-1] == 'unwrap_or' and len(x[2]) == 2:
-                tab, fb = x[2]
-                has_get = any(y[0] == 'call' and y[1].rsplit('::', 1)[-1] == 'get' and
-                              any(z[0] == 'call' and z[1].rsplit('::', 1)[-1] == 'get_or_init' for z in walk(y)) for y in walk(tab))
-                has_len = any(y[0] == 'call' and y[1].rsplit('::', 1)[-1] == 'len' for y in walk(fb))
+            if x[0] == 'call' and x[1].rsplit('::', 1)[-1] in ('unwrap_or', 'map_or', 'unwrap_or_else') and len(x[2]) >= 2:
+                tab = x[2][0]
+                fbs = x[2][1:]
+                gets = [y for y in walk(tab) if y[0] == 'call' and y[1].rsplit('::', 1)[-1] == 'get']
+                has_get = any(any(z[0] == 'call' and z[1].rsplit('::', 1)[-1] == 'get_or_init' for z in walk(y)) for y in gets)
+                has_len = any(y[0] == 'call' and y[1].rsplit('::', 1)[-1] == 'len' for fb in fbs for y in walk(fb))
                 if has_get and has_len:
                     ok = True
+                    for y in gets:
+                        for z in walk(y):
+                            if z[0] == 'call' and z[1].rsplit('::', 1)[-1] == 'get_or_init':
+                                for w in walk(z):
+                                    if w[0] == 'agg' and w[1] == 'closure':
+                                        cb = f.body(w[2])
+                                        if cb is not None and any(tt.get('callee') and tt['callee']['name'] == 'char_indices'
+                                                                  for _, tt in cb.calls()):
+                                            init_ok = True
         if not ok:
-            return False, 'a bound is not `table.get(i).unwrap_or(&len)`'
-    # the table initialiser enumerates char_indices
-    inits = [c for c in f.closures_of(b) if any(tt.get('callee') and tt['callee']['name'] == 'char_indices' for _, tt in c.calls())]
-    if not inits:
+            return False, 'a bound is not `table.get(i)` with the text length as fallback'
+    if not init_ok:
         return False, 'index table is not filled from char_indices'
     return True, 'bounds come from the char_indices table or the text length'
 
